@@ -106,11 +106,14 @@ class Gen:
                 self.features.add("nullable")
             if e["kind"] == "string" and not e["format"] and r.random() < 0.15:
                 node["default"] = r.choice(["none", "x y", "d"])
+                e["default"] = node["default"]
                 self.features.add("default_string")
             elif e["kind"] == "integer" and r.random() < 0.15:
                 node["default"] = 7
+                e["default"] = 7
             elif e["kind"] == "boolean" and r.random() < 0.15:
                 node["default"] = False
+                e["default"] = False
             return node, e
         if k == "array_prim":
             inner, e = self.prim()
@@ -170,7 +173,7 @@ class Gen:
         props, pexp, required = {}, {}, []
         for pn in self.prop_names(n):
             node, e = self.prop(name)
-            if e["kind"] in ("union", "enum_inline", "map"):
+            if e["kind"] in ("union", "enum_inline", "map", "inline_object"):
                 # inline unions / enums are promoted to schemas named after the bare property name; the clean grammar
                 # keeps those names unique per document (reuse is the trigger class 'promoted_name_reuse')
                 if "promoted_name_reuse" in self.allow:
@@ -193,8 +196,11 @@ class Gen:
         if objs and r.random() < self.prof["p_allof"]:
             p = r.choice(objs)
             # avoid key clashes with the parent to keep the expectation unambiguous
+            inherited_norm = {"".join(ch for ch in x.lower() if ch.isalnum()) for x in self.sexp[p]["props"]}
             for k in list(props):
-                if k in self.sexp[p]["props"]:
+                # also avoid own/inherited names that collide after sanitisation (unitPrice vs unit_price):
+                # collisions inside one namespace are C20's workload, not part of the clean grammar
+                if k in self.sexp[p]["props"] or "".join(ch for ch in k.lower() if ch.isalnum()) in inherited_norm:
                     del props[k]
                     pexp.pop(k)
                     if k in required:
@@ -411,6 +417,9 @@ class Gen:
             for p in hoist:
                 params.remove(p)
                 path_level.append(p)
+                for e in pexp:
+                    if e["name"] == p["name"] and e["in"] == p["in"]:
+                        e["path_level"] = True
             if path_level:
                 self.features.add("path_level_params")
         if params:
@@ -489,10 +498,20 @@ class Gen:
             if second == "204":
                 responses[second] = {"description": "nothing"}
                 rexp[second] = {"content": None}
-            else:
+            elif "multi_2xx_different_schema" in self.allow or rexp[primary].get("content") is None:
                 sch, e = self.response_schema()
                 responses[second] = {"description": "also ok", "content": {"application/json": {"schema": sch}}}
                 rexp[second] = {"content": "json", "schema": e}
+                if rexp[primary].get("content") is not None:
+                    self.features.add("multi_2xx_different_schema")
+            elif rexp[primary].get("content") != "json":
+                responses[second] = {"description": "nothing"}
+                rexp[second] = {"content": None}
+            else:
+                # clean grammar: a second success response with content shares the primary's schema (the method has one
+                # return annotation); differing schemas are the trigger class 'multi_2xx_different_schema'
+                responses[second] = {"description": "also ok", "content": copy.deepcopy(responses[primary]["content"])}
+                rexp[second] = copy.deepcopy(rexp[primary])
             self.features.add("multi_2xx")
         if r.random() < self.prof["p_errors"]:
             for code in r.sample(["400", "401", "403", "404", "409", "422", "429", "500", "502", "503"], r.randint(1, 3)):
